@@ -4,6 +4,7 @@ import (
 	"errors"
 	"fmt"
 	"net"
+	"strings"
 	"time"
 
 	"github.com/Jigsaw-Code/outline-ss-server/ipinfo"
@@ -346,5 +347,11 @@ func c17(ctx *Ctx) {
 	}
 	if len(terms) > 0 {
 		ctx.WriteCases(shard, "Corr.C17", "case", terms)
+	}
+	// corpus: scrape racing with a tunnel start (child process: the defect was a process panic)
+	out, code := runSelfChild(20*time.Second, "c17scrape")
+	ctx.Count("corpus:scrape-vs-start")
+	if code != 0 || !strings.Contains(out, "scrape survived") {
+		ctx.Monitor("C17/scrape-vs-start-panic", "a scrape overlapping the start of a tunnel crashes or miscounts: "+tailStr(out, 400), map[string]interface{}{"child": "c17scrape", "exit": code})
 	}
 }
